@@ -7,6 +7,7 @@ bulk(L) again.  Reference: each entry evaluated alone by ColorPair(...).make_rea
 pristine forked process, the label recomputed by the independent WCAG/CSS-colour reference.
 """
 import copy
+import os
 
 from . import apiops, base, gen, refs
 from .apiops import dec, enc
@@ -30,7 +31,7 @@ ASSUMPTIONS = [
 ]
 PROBES = ["lists", "entries", "entries_changed", "poison_entries", "poison_text", "poison_bg", "three_element_entries", "large_true",
           "empty_list", "duplicates", "calls", "label_checked", "label_skipped_alpha_bg", "mode0", "mode1", "mode2", "very_readable",
-          "status_very_readable", "status_readable", "status_not_readable", "list_entries_form", "alias_family_entries", "same_translucent_text_on_several_backgrounds", "held_results_rechecked"]
+          "status_very_readable", "status_readable", "status_not_readable", "list_entries_form", "alias_family_entries", "same_translucent_text_on_several_backgrounds", "held_results_rechecked", "history_calls_with_other_settings", "exotic_background_entries", "report_variant_tmpdir_on_other_filesystem"]
 
 
 def _colour(rng, rgb, role):
@@ -39,11 +40,17 @@ def _colour(rng, rgb, role):
         return enc(gen.spell_alpha(rng, rgb, rng.choice((0.0, 0.25, 0.5, 0.999, 1.0, round(rng.random(), 3))))[0]), True
     kinds = gen.CSS_SPELLINGS + gen.API_ONLY_SPELLINGS
     if role == "t" and rng.random() < 0.25:
-        kinds = kinds + gen.EXOTIC_API_SPELLINGS  # text only: the label reference must be able to read the background
+        kinds = kinds + gen.EXOTIC_API_SPELLINGS
+    if role == "b" and rng.random() < 0.15:
+        # backgrounds in the rarer API spellings too (float fractions, HSL-looking tuples, padded strings ...): the label
+        # reference then takes the background as the library's own Color() reads it in a pristine process
+        return enc(gen.spell(rng, rgb, gen.EXOTIC_API_SPELLINGS)[0]), "exotic"
     return enc(gen.spell(rng, rgb, kinds)[0]), False
 
 
 def _poison(rng):
+    if rng.random() < 0.25:
+        return enc(rng.choice(gen.NEAR_CSS))  # (accepted or rejected by the library: the single-pair API decides)
     if rng.random() < 0.6:
         return enc(rng.choice(gen.POISON_STR))
     return enc(rng.choice(gen.POISON_OBJ))
@@ -51,13 +58,15 @@ def _poison(rng):
 
 def _entry(rng, vr, poison_p):
     bg = gen.rand_rgb(rng)
-    large = rng.choice((None, None, False, True, True))
+    large = rng.choice((None, None, None, False, True, True, True, 1, 0))  # (a flag that is truthy/falsy but not a bool: 1, 0)
     thr = refs.target_ratio(premium=vr, large=bool(large))
     band = rng.choice(("pass", "pass-hair", "fix", "fix", "fix-hair", "mid", "hard", "same", "random"))
     trgb, _ = gen.pick_text(rng, bg, thr, band)
     t, alpha = _colour(rng, trgb, "t")
-    b, _ = _colour(rng, bg, "b")
+    b, bx = _colour(rng, bg, "b")
     e = {"t": t, "b": b, "large": large, "bg_rgb": list(bg), "alpha": alpha}
+    if bx == "exotic":
+        e["bg_exotic"] = True
     if rng.random() < poison_p:
         which = rng.choice(("t", "b", "tb"))
         if "t" in which:
@@ -119,7 +128,12 @@ def generate(rseed, tier, idx):
         positions = [g.randrange(n + 1)]
     else:
         positions = sorted({0, n, g.randrange(n + 1)})
-    return {"prop": ID, "mode": mode, "vr": vr, "L": L, "perm": perm, "split": g.randint(0, n), "poison": pe,
+    e = stream(rseed, "env")
+    # calls with OTHER settings (mode / very_readable) made by the same process before and between the judged ones
+    others = [{"mode": e.choice((0, 1, 2, None)), "vr": e.choice((True, True, False)), "when": e.choice(("first", "middle", "middle"))}
+              for _ in range(e.choice((0, 1, 1, 2)))]
+    renv = {"tmp_other_fs": e.random() < 0.3, "cwd": e.choice(("cwd", "cwd", "work [v2]", "a b/c"))}
+    return {"prop": ID, "mode": mode, "vr": vr, "L": L, "perm": perm, "split": g.randint(0, n), "poison": pe, "others": others, "report_env": renv,
             "positions": positions, "as": g.choice(("tuple", "tuple", "list")), "container": g.choice(("list", "list", "list", "tuple", "iter", "gen")), "derived": True}
 
 
@@ -165,7 +179,7 @@ def execute(trace):
     # ---- 1. reference per entry, each in a pristine fork (this process has not called cm_colors yet)
     def expected(e):
         nonlocal skipped
-        large = bool(e.get("large")) if e.get("large") is not None else False
+        large = e.get("large") if e.get("large") is not None else False  # handed to ColorPair exactly as the entry carries it
         po = apiops.oracle({"op": "pair", "t": e["t"], "b": e["b"], "large": large}, cache)
         if "exc" in po:
             # the single-pair API raises on this entry: it certainly "cannot be parsed" - the bulk API must still
@@ -179,14 +193,20 @@ def execute(trace):
             return {"kind": "invalid", "single_api_raised": mo["exc"]}
         colour, ok = dec(mo["ret"])
         lab = None
-        if e.get("bg_rgb") is not None and colour is not None:
+        bg_rgb = e.get("bg_rgb")
+        if e.get("bg_exotic") and bg_rgb is not None:
+            co = apiops.oracle({"op": "color", "v": e["b"]}, cache)
+            got = dec(co["ret"]) if "ret" in co else None
+            bg_rgb = list(got[1]) if got and got[0] and got[1] is not None else None
+            bump("exotic_background_entries")
+        if bg_rgb is not None and colour is not None:
             crgb = refs.any_rgb(colour)
             if crgb is not None:
-                ratio = refs.contrast(crgb, tuple(e["bg_rgb"]))
+                ratio = refs.contrast(crgb, tuple(bg_rgb))
                 if refs.near_threshold(ratio):
                     skipped += 1
                 else:
-                    lab = refs.label(ratio, large)
+                    lab = refs.label(ratio, bool(large))
         return {"kind": "valid", "colour": colour, "ok": ok, "label": lab, "changed": refs.any_rgb(colour) != refs.any_rgb(dec(e["t"]), over=tuple(e["bg_rgb"]) if e.get("bg_rgb") else None)}
 
     exp_cache = {}
@@ -228,14 +248,28 @@ def execute(trace):
     def call(entries, tag, kind_for_mismatch, save=False):
         op = {"op": "bulk", "pairs": _pairs(entries), "mode": mode, "vr": vr, "as": trace["as"], "container": trace.get("container", "list"), "hold": True}
         if save:
-            # the same call with save_report=True (report and its console line go to a sandbox): same results
+            # the same call with save_report=True (report and its console line go to a sandbox): same results,
+            # also when the temp directory is on another file system than the working directory
             op["save"] = True
             sroot = base.new_sandbox("c12rep")
+            renv = trace.get("report_env") or {}
+            tmpd = None
+            if renv.get("tmp_other_fs"):
+                cand = os.path.join("/tmp" if sroot.startswith("/dev/shm") else "/dev/shm", "cmverif-tmp-%d-%s" % (os.getpid(), os.path.basename(sroot)))
+                try:
+                    os.makedirs(cand, exist_ok=True)
+                    if os.stat(cand).st_dev != os.stat(sroot).st_dev:
+                        tmpd = cand
+                        bump("report_variant_tmpdir_on_other_filesystem")
+                except OSError:
+                    tmpd = None
             try:
-                with apiops.Effects(sroot):
+                with apiops.Effects(sroot, cwd_rel=renv.get("cwd", "cwd"), tmpdir_abs=tmpd):
                     r = apiops.run_op(op, hold_ctx)
             finally:
                 base.rm_tree(sroot)
+                if tmpd:
+                    base.rm_tree(tmpd)
         else:
             r = apiops.run_op(op, hold_ctx)
         bump("calls")
@@ -283,6 +317,16 @@ def execute(trace):
                 failed_in_base.add(ek)
         return res
 
+    def history_call(o):
+        # not judged itself: it is history for the judged calls that follow
+        op = {"op": "bulk", "pairs": _pairs(L), "mode": o["mode"], "vr": o["vr"], "as": trace["as"], "container": "list"}
+        r = apiops.run_op(op, apiops.Ctx())
+        events.append(("other-settings", o["mode"], o["vr"], r))
+        bump("history_calls_with_other_settings")
+
+    for o in trace.get("others") or ():
+        if o["when"] == "first" and L:
+            history_call(o)
     r0 = call(L, "base", None)
     derived = False
     if trace.get("derived") and L:
@@ -295,6 +339,9 @@ def execute(trace):
             call(L[:pos] + [trace["poison"]] + L[pos:], "poison@%d" % pos, "insertion")
         call(L + L, "doubled", "repetition")
         call(L, "with-report", "report-variant", save=True)
+        for o in trace.get("others") or ():
+            if o["when"] == "middle":
+                history_call(o)
         r9 = call(L, "again", "repetition")
         if r0 is not None and r9 is not None and r0 != r9:
             V("repetition", call="again", first=repr(r0)[:300], second=repr(r9)[:300])
@@ -321,6 +368,14 @@ def shrink(trace):
     if trace.get("derived"):
         t = copy.deepcopy(trace)
         t["derived"] = False
+        yield t
+    for k in range(len(trace.get("others") or ())):
+        t = copy.deepcopy(trace)
+        del t["others"][k]
+        yield t
+    if (trace.get("report_env") or {}).get("tmp_other_fs"):
+        t = copy.deepcopy(trace)
+        t["report_env"]["tmp_other_fs"] = False
         yield t
     for i in range(n):
         t = copy.deepcopy(trace)
